@@ -32,7 +32,9 @@ def confirm(job):
     rc, o = sh(["git", "apply", patch], wt)
     if rc != 0:
         return name, "patch does not apply"
+    sh(["git", "add", "-N", "."], wt)          # so that files the patch creates are part of the saved diff
     rc, diff = sh(["git", "diff"], wt)
+    sh(["git", "reset", "-q"], wt)
     rc, o = sh("cargo test --workspace --no-fail-fast --offline", wt + "/source", env)
     fails = re.findall(r"^test result: FAILED", o, re.M)
     if rc != 0 or fails:
